@@ -128,7 +128,17 @@ def d14():
     return cols != ['angular speed (rad/s)'], f"snapshot(variables=['angular speed']) has columns {cols}"
 
 
-TABLE = dict(D1=d1, D2=d2, D3=d3, D4=d4, D7=d7, D8=d8, D9=d9, D10=d10, D11=d11, D13=d13, D14=d14)
+def d15():
+    m = DCMotor(name='m', inertia_moment=InertiaMoment(1e-4, 'kgm^2'), no_load_speed=AngularSpeed(100, 'rad/s'), maximum_torque=Torque(1, 'Nm'),
+                no_load_electric_current=Current(0, 'A'), maximum_electric_current=Current(2, 'A'))
+    m.angular_speed = AngularSpeed(10, 'rad/s')
+    m.pwm = 5e-324
+    m.compute_torque()
+    t = m.driving_torque.value
+    return math.isnan(t) or math.isinf(t), f'motor with i0 = 0 at duty cycle 5e-324 (a floating-point neighbour of the dead-zone boundary 0) and 10 rad/s: driving torque {t!r}'
+
+
+TABLE = dict(D15=d15, D1=d1, D2=d2, D3=d3, D4=d4, D7=d7, D8=d8, D9=d9, D10=d10, D11=d11, D13=d13, D14=d14)
 
 
 def replay(fid):
